@@ -5,6 +5,37 @@ may be imported (typeshed fixture)."""
 
 PROGRAMS = [
 '''
+def f(x, y):
+  return pow(x, y)
+def g(x):
+  return round(x)
+def h(x):
+  return divmod(x, 2)
+def k(x):
+  return abs(x)
+def m(x, y):
+  return max(x, y)
+def n(x):
+  return sum(x)
+def p(x):
+  return reversed(x)
+def q(x, y):
+  return x.get(y) if x else dict.fromkeys(y)
+''',
+'''
+class A: pass
+class B(A): pass
+def want_int(x: int): return x
+def want_a(x: B): return x
+def cond(c):
+  want_int([1] if c else {"a": 2.0})
+  want_int((1, "a") if c else (1, 2, 3))
+  want_a(A() if c else [B()])
+  want_int({1} if c else {"s"})
+  want_int([A()] if c else [B(), None])
+  want_int(1.5 if c else None)
+''',
+'''
 def f(x):
   if x: return [1]
   return ["a"]
